@@ -1324,6 +1324,10 @@ func (d *Data) ServeHTTP(uuid dvid.UUID, ctx *datastore.VersionedCtx, w http.Res
 		fmt.Fprintln(w, jsonStr)
 
 	case "resolution":
+		if action != "post" {
+			server.BadRequest(w, r, "resolution endpoint only supports POST HTTP verb")
+			return
+		}
 		jsonBytes, err := ioutil.ReadAll(r.Body)
 		if err != nil {
 			server.BadRequest(w, r, err)
